@@ -224,8 +224,10 @@ pub fn run(ctx: &mut Ctx) {
             T::Map(Box::new(mk("entries", T::Struct(vec![mk("key", T::Utf8, false), mk("value", T::Int32, true)]), false)), false)];
         let mut rng = ctx.rng.fork();
         for child in &children {
-            for parent in 0..6usize {
-                let c = |n: &str| mk(n, child.clone(), true);
+            // the child nullable (validity bitmaps exist) and not nullable (no bitmap: the bounds of the child are the only guard)
+            for (parent, child_nullable) in (0..6usize).flat_map(|p| [(p, true), (p, false)]) {
+                if !child_nullable && matches!(child, T::Null) { continue; }
+                let c = |n: &str| mk(n, child.clone(), child_nullable);
                 let field = match parent {
                     0 => mk("c", T::Struct(vec![mk("x", T::Int32, false), c("y")]), true),
                     1 => mk("c", T::List(Box::new(c("element"))), true),
@@ -235,7 +237,7 @@ pub fn run(ctx: &mut Ctx) {
                     _ => mk("c", T::Union(vec![(0, mk("V0", T::Null, true)), (1, c("V1"))], marrow::datatypes::UnionMode::Dense), false),
                 };
                 for nrows in [3usize, 9] {
-                    if nrows == 9 && !ctx.thorough && parent % 2 == 1 { continue; }
+                    if nrows == 9 && !ctx.thorough && (parent % 2 == 1 || !child_nullable) { continue; }
                     let mut none = Inject { countdown: -1, what: None };
                     let rows: Vec<Val> = (0..nrows).map(|_| Val::Struct(vec![("c".to_string(), arrgen::gen_val(&mut rng, &field, &mut none))], 0)).collect();
                     let Out::Ok(arrays) = guarded(|| serde_arrow::to_marrow(std::slice::from_ref(&field), &rows).map_err(|e| e.to_string())) else { ctx.count("skipped:directed_rows_rejected"); continue };
